@@ -19,6 +19,9 @@ CONSTANTS
   EmitDyn = TRUE
   MaxHist = 0
   MaxReorders = 0
+  NameOrder <- NameOrderA
+  BuildCfgs <- BuildCfgsA
+  IntegrCfgs <- IntegrCfgsA
   UnitCfgs <- UnitsA
   Times <- TimesA
   Tol <- TolA
